@@ -195,7 +195,7 @@ def side_case(seed):
 def run(ctx):
     quick = ctx.tier == 'quick'
     lib.stage_proof(ctx, PROP_FILES, ['Check/C08.vo'])
-    n = 160 if quick else 2500
+    n = 160 if quick else 5000
     cases, metas = [], []
     for k in range(n):
         cs = ctx.rng.getrandbits(48)
@@ -221,7 +221,7 @@ def run(ctx):
         cases.append(lit)
         metas.append({'desc': {'gen': 'gen_int_case', 'case_seed': cs, 'case': d}, 'tags': {'op': 'evp.als'}})
     bad = lib.stage_correspondence(ctx, 'evp', REQ, 'check_C08', cases, metas)
-    n_side = 200 if quick else 4000
+    n_side = 200 if quick else 12000
     if bad:
         n_side *= 4
     for k in range(n_side):
